@@ -235,6 +235,12 @@ func NewMatchField[Int constraints.Integer | *big.Int | ~[]byte, Mask constraint
 	if len(mask) > 0 {
 		var maskInt *big.Int
 		length /= 2
+		// offset and width must lie inside the field: reject them before shifting by them
+		for i := 0; i < len(mask) && i < 2; i++ {
+			if mask[i] < 0 || uint64(mask[i]) > uint64(length)*8 {
+				return nil, fmt.Errorf("mask window exceeds the %d-byte field", length)
+			}
+		}
 		if len(mask) != 3 || mask[2] == 1 {
 			value = value.Lsh(value, uint(mask[0]))
 		}
